@@ -249,22 +249,41 @@ def _rowgroupby(ctx, rep):
         rep.violated('R9.2', fn, 'groupby(it, key=getkey)',
                      'rowgroupby must group the record stream by comparable_itemgetter(*asindices(hdr, key)) (or the callable '
                      'key); found getkey in %s' % vals, g[0])
-    # unwrap k.inner for non-callable keys: every returned generator over git for the non-native branch
-    rets = [n for n in own_nodes(fn.node) if isinstance(n, ast.Return) and isinstance(n.value, ast.GeneratorExp)]
-    from ..absint import parent_map, enclosing
-    pm = parent_map(fn.node)
-    for r in rets:
-        native = None
-        for p, c in enclosing(pm, r, stop=fn.node):
-            if isinstance(p, ast.If) and norm(p.test) == 'native_key':
-                native = any(c is b for b in p.body)
-                break
-        first = norm(r.value.elt.elts[0]) if isinstance(r.value.elt, ast.Tuple) else None
-        want = 'k' if native else 'k.inner'
-        if first == want:
-            rep.held('R9.2', fn, norm(r)[:70], 'key handed to the caller: %s' % want, r)
-        else:
-            rep.violated('R9.2', fn, norm(r)[:70], 'the group key handed to the caller must be %s (found %s)' % (want, first), r)
+    # the key handed to the caller: the callable key's own value, the unwrapped Comparable (k.inner) otherwise -- on every
+    # path, whatever the shape of the ladder and the names of the flags
+    from ..ladder import paths, test_defs
+    defs = test_defs(fn.node)
+    for is_callable in (True, False):
+        want_inner = not is_callable
+        for pth in paths(fn.node.body, {'callable(key)': is_callable}, defs, track=True, limit=64):
+            if pth.kind != 'return' or pth.node.value is None:
+                continue
+            r = pth.node
+            v = r.value
+            c = '%s [callable key: %s]' % (norm(r)[:60], is_callable)
+            if isinstance(v, ast.Name):
+                # the groupby object itself: keys as groupby produced them
+                got_inner = False
+                first = v.id
+            elif isinstance(v, ast.GeneratorExp) and isinstance(v.elt, ast.Tuple) and v.elt.elts and \
+                    isinstance(v.generators[0].target, ast.Tuple) and isinstance(v.generators[0].target.elts[0], ast.Name):
+                kname = v.generators[0].target.elts[0].id
+                first = norm(v.elt.elts[0])
+                if first == kname:
+                    got_inner = False
+                elif first == kname + '.inner':
+                    got_inner = True
+                else:
+                    rep.violated('R9.2', fn, c, 'the group key handed to the caller is `%s`, neither the key nor its unwrapped value' % first, r)
+                    continue
+            else:
+                rep.undecided('R9.2', fn, c, 'returned value not recognised', r)
+                continue
+            if got_inner == want_inner:
+                rep.held('R9.2', fn, c, 'key handed to the caller: %s' % first, r)
+            else:
+                rep.violated('R9.2', fn, c, 'the group key handed to the caller must be %s (found %s)'
+                             % ('the unwrapped k.inner' if want_inner else 'the callable\'s own value k', first), r)
 
 
 # ------------------------------------------------------------------------- R9.5
@@ -710,7 +729,9 @@ def r916(ctx, rep):
         ctx.report = saved
     n = 0
     for o in sub.obligations:
-        if o.module == 'petl.comparison':
+        if o.module in ('petl.comparison', 'petl.transform.sorts'):
+            # (sorts: the heap items of the chunk merge compare keys only -- otherwise rows with equal keys are re-ordered
+            # by their content and a group is no longer in input order)
             n += 1
             rep.add('R9.16', (o.module, o.qualname), o.construct, o.status, o.message, o.lineno, o.detail)
     if n < 3:
